@@ -340,6 +340,11 @@ def run(ctx: Ctx) -> int:
 			inputs.append((f'mut:{d["program"]}:{d["op"]}:{d["pos"]}', mutate(PROGRAMS[d['program'] - 1], d['op'], d['pos'])))
 		except (tokenize.TokenError, IndentationError):
 			continue
+	anns = [json.loads(line) for line in mres.lines('ANN ')]
+	if len(anns) < 100:
+		raise Machinery(f'ErrFlowMut emitted {len(anns)} annotation faults only')
+	for i, d in enumerate(anns if not quick else anns[::2]):
+		inputs.append((f'ann:{d["place"]}:{d["ctor"]}:{d["n"]}:{i}', d['text']))
 	for i, src in enumerate(ILL_TYPED):
 		inputs.append((f'ill:{i}', src))
 	for i in range(400 if quick else 4000):
@@ -403,6 +408,16 @@ def run(ctx: Ctx) -> int:
 		smallest = min(rs, key=lambda r: len(r['source']))
 		violations.append(Violation(key, 'UnparsableIsSyntax', f'a failure of the parser ({smallest["root_class"]}) is reported as {smallest["escaped_class"]} instead of Errors.Syntax ({len(rs)} inputs), e.g. {smallest["source"][:80]!r}', {'source': smallest['source'], 'mode': smallest['input_mode'], 'label': smallest['label']}))
 
+	# which (stage, raised) pairs the recorded executions witness: the wrapper table of the spec is exercised only there
+	witnessed: dict[str, int] = {}
+	for r in records:
+		if r['stage'] not in ('done', 'timeout'):
+			k = f'{r["stage"]}:{r["raised"]}'
+			witnessed[k] = witnessed.get(k, 0) + 1
+	missing = [k for k in ('parse:Foreign', 'preprocess:Foreign', 'preprocess:App', 'handler:Foreign', 'handler:App') if k not in witnessed]
+	if missing:
+		raise Machinery(f'no recorded execution raises at {missing}: the wrapper table is not exercised there (witnessed: {witnessed})')
+	ctx.log(f'witnessed (stage:raised): {dict(sorted(witnessed.items()))}')
 	outcomes: dict[str, int] = {}
 	for r in records:
 		k = 'ok' if r['stage'] == 'done' else (r.get('escaped_class') or r['stage'])
@@ -416,6 +431,7 @@ def run(ctx: Ctx) -> int:
 		'mutation_descriptors_from_tlc': len(descs),
 		'outcomes': dict(sorted(outcomes.items(), key=lambda kv: -kv[1])),
 		'foreign_leak_sites': sorted(leaks),
+		'stage_raised_witnessed': dict(sorted(witnessed.items())),
 		'timeouts': len(timeouts),
 		'error_render_failures': len(render_fail),
 		'exhaustive': False,
